@@ -1688,11 +1688,21 @@ class SoftAbsRegularizedPositiveDefiniteMatrix(
         return EigendecomposedSymmetricMatrix(self.eigvec, grad_eigval).array
 
     def grad_quadratic_form_inv(self, vector: NDArray) -> NDArray:
+        grad_softabs_eigval = self.grad_softabs(self.unreg_eigval)
         num_j_mtx = self.eigval[:, None] - self.eigval[None, :]
-        num_j_mtx += np.diag(self.grad_softabs(self.unreg_eigval))
         den_j_mtx = self.unreg_eigval[:, None] - self.unreg_eigval[None, :]
-        np.fill_diagonal(den_j_mtx, 1)
-        j_mtx = num_j_mtx / den_j_mtx
+        # For (numerically) repeated eigenvalues the divided differences are replaced
+        # by their limit, the derivative of the softabs function, which is also the
+        # value taken on the diagonal
+        abs_unreg_eigval = abs(self.unreg_eigval)
+        is_repeated = abs(den_j_mtx) <= 1e-8 * (
+            1 + abs_unreg_eigval[:, None] + abs_unreg_eigval[None, :]
+        )
+        j_mtx = np.where(
+            is_repeated,
+            0.5 * (grad_softabs_eigval[:, None] + grad_softabs_eigval[None, :]),
+            num_j_mtx / np.where(is_repeated, 1, den_j_mtx),
+        )
         e_vct = (self.eigvec.T @ vector) / self.eigval
         return -((self.eigvec @ (np.outer(e_vct, e_vct) * j_mtx)) @ self.eigvec.T)
 
